@@ -35,7 +35,7 @@ func (c18) Assumptions() []string {
 	}
 }
 func (c18) Required(tier string) []string {
-	return []string{"S-switch", "switch-at-state-label", "switch-at-loop", "switch-at-func-entry", "switch-inside-fp", "switch-inside-handler-traversal", "same-function-in-all-tasks"}
+	return []string{"S-switch", "switch-at-state-label", "switch-at-loop", "switch-at-func-entry", "switch-inside-fp", "switch-inside-handler-traversal", "same-function-in-all-tasks", "all-tasks-deep-in-user-recursion"}
 }
 func (c18) Gen(r *Rand, sc *Scenario, tier string) { genC18(r, sc, tier) }
 
@@ -177,6 +177,9 @@ func (c18) Exec(sc *Scenario, st *Stats) *Violation {
 	}
 	if same {
 		st.probe("same-function-in-all-tasks")
+	}
+	if sc.cfg("deep-recursion-in-every-task") == 1 {
+		st.probe("all-tasks-deep-in-user-recursion")
 	}
 	// reference: the same machinery with an empty schedule = one task after another
 	seq := runInterleaved(sc, nil, NewTape(nil), buildDocs(sc))
